@@ -363,6 +363,53 @@ func c10Waiters(c *Ctx, name string, uncacheable bool, b vsched.Bounds) Sched {
 	}
 }
 
+// c10SlowStoreOtherKey: all keys in one shard, /hot cached in memory. A request for /cold is inside a (slow) store
+// call; a request for /hot must not be waiting for a lock held across that call.
+func c10SlowStoreOtherKey(c *Ctx, name string, b vsched.Bounds) Sched {
+	cfg := env.BasicConfig(config.CacheConfig{Store: "fault://c10slow"})
+	return Sched{
+		Name:   name,
+		Opt:    vsched.Options{RecordBlocked: true},
+		Bounds: b,
+		Setup: func() ([]func(), func(*vsched.Exec) *vsched.Violation, func() string) {
+			st := env.NewFaultStore()
+			st.Register("fault://c10slow")
+			e := getEnv(cfg, "c10slow")
+			freshCaches(cfg)
+			oneShard("c1", 8, st)
+			vtime.Set(vtime.Base)
+			vsched.ClockStart = vtime.Base
+			e.Respond = func(oc *env.OriginCall) env.OriginResp { return env.Cacheable(oc, 600, "p") }
+			e.Do(env.Req{URI: "/hot", Rid: "pro"})
+			e.Events()
+			res := make([]*env.Result, 3)
+			bodies := []func(){
+				func() { res[0] = e.Do(env.Req{URI: "/cold", Rid: "t0"}) },
+				func() { res[1] = e.Do(env.Req{URI: "/hot", Rid: "t1"}) },
+				func() { res[2] = e.Do(env.Req{URI: "/hot", Rid: "t2"}) },
+			}
+			check := func(x *vsched.Exec) *vsched.Violation {
+				e.Events()
+				if x.Deadlock || x.Livelock || len(x.Panics) > 0 {
+					return nil
+				}
+				for i := 1; i <= 2; i++ {
+					if res[i] == nil || res[i].Status != 200 || res[i].XStatus != "hit" {
+						return &vsched.Violation{Sig: "memory-hit-lost", Msg: fmt.Sprintf("request %d for the cached key answered %v", i, res[i])}
+					}
+				}
+				for _, bo := range x.BlockedAt {
+					if bo.Tid != 0 && bo.Owner == 0 && bo.OwnerOp == vsched.OpYield && bo.OwnerRes == env.ResStore {
+						return &vsched.Violation{Sig: "memory-hit-waits-for-store-call-of-other-key", Msg: fmt.Sprintf("the request of thread %d for the memory-cached key /hot is blocked on a lock held by the request for /cold, which is inside a store call: a slow store delays answers it has nothing to do with", bo.Tid)}
+					}
+				}
+				return nil
+			}
+			return bodies, check, func() string { return fmt.Sprint(res[0].XStatus, res[1].XStatus, res[2].XStatus) }
+		},
+	}
+}
+
 func init() {
 	Register("C10", func(c *Ctx) {
 		c.Out.Rule = "(1) one request history {cold fetch, hit, expiry+refetch, hit, purge+fetch, restart+lookup, hit} + fault-free epilogue where every store call's answer is a data choice from {ok, not-found, error, record truncated at every field boundary (-1/0/+1), all-00, all-ff, empty, status field in {0,1,4,7}, expiredAt=0, inflated response length}: all executions with at most 2 (quick) / 3 (thorough) non-ok answers; (2) every bounded schedule of 3 coalesced requests with store faults; oracle: every response 200 with the request's own body, label truth, hits only on the latest fetched body within its lifetime, memory-cached responses keep being hits, no request blocks"
@@ -430,6 +477,7 @@ func init() {
 		c.RunSched(c10History(c, "history-faults", false, false, vsched.Bounds{Preempt: 0, Tick: 0, Data: d, Total: -1}))
 		c.RunSched(c10History(c, "history-faults-lazy-store", true, false, vsched.Bounds{Preempt: 0, Tick: 0, Data: d, Total: -1}))
 		c.RunSched(c10History(c, "short-history-faults", false, true, vsched.Bounds{Preempt: 0, Tick: 0, Data: d, Total: -1}))
+		c.RunSched(c10SlowStoreOtherKey(c, "slow-store-call-other-key", vsched.Bounds{Preempt: pre, Tick: 0, Data: 0, Total: -1}))
 		c.RunSched(c10Waiters(c, "waiters-faults", false, vsched.Bounds{Preempt: pre, Tick: 0, Data: 2, Total: pre + 1}))
 		c.RunSched(c10Waiters(c, "waiters-faults-uncacheable", true, vsched.Bounds{Preempt: pre, Tick: 0, Data: 2, Total: pre + 1}))
 	})
